@@ -161,6 +161,9 @@ def overlaps_at_least(range1, range2, delta=0):
     if ovlp1 < 0 or ovlp2 < 0:
         return False
     d = delta - 1
+    if range2[0] <= range1[0] and range1[1] <= range2[1]:
+        # range1 lies inside range2, whichever end they share
+        return True
     if range1[1] < range2[1]:
         return ovlp1 >= d or range1[0] >= range2[0]
     else:
@@ -169,6 +172,9 @@ def overlaps_at_least(range1, range2, delta=0):
 
 # dangerous function, works only when range1 and range2 are already known to overlap, do not use if unsure
 def overlaps_at_least_when_overlap(range1, range2, delta=0):
+    if range2[0] <= range1[0] and range1[1] <= range2[1]:
+        # range1 lies inside range2, whichever end they share
+        return True
     if range1[1] < range2[1]:
         return range1[0] >= range2[0] or range1[1] - range2[0] + 1 >= delta
     else:
